@@ -12,8 +12,29 @@ _sink_installed = False
 _lock_free_records: list[list[str]] = []  # records emitted outside any simulated client
 
 
+_tls = threading.local()
+
+
+class shadow:
+    """Calls made inside run with the log sink in shadow mode: what they log is discarded, so
+    monitor re-executions never disturb warning counts."""
+
+    def __enter__(self) -> None:
+        _tls.shadow = getattr(_tls, "shadow", 0) + 1
+
+    def __exit__(self, *a: Any) -> None:
+        _tls.shadow -= 1
+
+
+def current_log() -> list[list[str]]:
+    c = getattr(threading.current_thread(), "sim_client", None)
+    return c.log if c is not None else _lock_free_records
+
+
 class _Sink(logging.Handler):
     def emit(self, record: logging.LogRecord) -> None:
+        if getattr(_tls, "shadow", 0):
+            return
         try:
             msg = record.getMessage()
         except Exception as e:  # noqa: BLE001
